@@ -51,6 +51,7 @@ def step_spec(cx):
         return new.arr == z3.Store(old.arr, l, old.arr[l] + 1)
 
     cx.spec["lengths_plus_one"] = lengths_plus_one
+    cx.spec["map_same"] = lambda a, b: a.arr == b.arr
 
 
 @contract("predicates.py", "Predicate.test", props=[], name="Predicate.test")
